@@ -57,7 +57,9 @@ func c05ZeroColumns(r *obs.Run) {
 	}()
 	var x interface {
 		RevComp()
+		Reverse()
 		Len() int
+		Clone() seq.Rower
 	}
 	strand := func() seq.Strand { return 0 }
 	if quality {
@@ -85,6 +87,23 @@ func c05ZeroColumns(r *obs.Run) {
 	x.RevComp()
 	if strand() != st || x.Len() != 0 {
 		r.Violate("revcomp-involution", fmt.Sprintf("zero-column %v with strand %d: after two RevComps strand %d, length %d", w["kind"], st, strand(), x.Len()), w)
+		return
+	}
+	// Clone of nothing is still a copy of its own; Reverse twice changes nothing
+	c := x.Clone()
+	if cl, ok := c.(interface{ Len() int }); c == nil || !ok || cl.Len() != 0 {
+		r.Violate("clone-not-independent", fmt.Sprintf("zero-column %v: Clone returned %v", w["kind"], c), w)
+		return
+	}
+	c.(interface{ RevComp() }).RevComp()
+	if strand() != st {
+		r.Violate("clone-not-independent", fmt.Sprintf("zero-column %v: RevComp of the clone changed the original's strand to %d", w["kind"], strand()), w)
+		return
+	}
+	x.Reverse()
+	x.Reverse()
+	if x.Len() != 0 {
+		r.Violate("reverse-involution", fmt.Sprintf("zero-column %v: length %d after two Reverses", w["kind"], x.Len()), w)
 		return
 	}
 	r.Count("zero_column_alignments", 1)
